@@ -1,8 +1,11 @@
 #!/bin/bash
-# Offline setup: build the framework once (warms the Go build cache).
+# Offline setup: build the framework once (warms the Go build cache, incl. the instrumented build).
 set -e
 cd "$(dirname "$0")"
 export GOFLAGS=-mod=mod GOPROXY=off GOSUMDB=off GOTOOLCHAIN=local CGO_ENABLED=0
 mkdir -p .work/bin evidence replays
 go build -o .work/bin/vcheck ./cmd/vcheck
+(cd vinst && go build -o ../.work/bin/vinst .)
+.work/bin/vinst -repo /repo -rt "$PWD/rt" -out "$PWD/.work/setup-inst" -seams MSA > .work/setup-vinst.log 2>&1
+go build -tags verif -overlay "$PWD/.work/setup-inst/overlay.json" -o .work/bin/vcheck-verif ./cmd/vcheck
 echo "setup ok"
